@@ -1,98 +1,280 @@
 package interp
 
-// Channels and goroutines under a single logical thread.  A goroutine started
-// with `go` is queued and run to completion when the running goroutine would
-// otherwise block (or at the end of the harness).  A goroutine that itself
-// blocks with nothing else runnable is a reported deadlock.
+// Goroutines and channels under a deterministic cooperative scheduler.
+//
+// Every interpreted goroutine is a real Go goroutine, but exactly one runs at
+// any time (baton passing).  The running goroutine gives up the baton only at
+// blocking operations (channel send/receive/select, mutex, WaitGroup, Cond,
+// Gosched/Sleep) and when it ends; the next goroutine is chosen in FIFO order
+// among those able to proceed.  Pre-emptive interleavings are NOT explored.
+// If the main goroutine cannot proceed and nothing else can run, the path is
+// reported as blocked (deadlock).
 
-import "fmt"
+import (
+	"fmt"
+)
 
-type chanT struct {
-	buf    []value
-	cap    int
-	closed bool
+type gor struct {
+	id     int
+	resume chan struct{}
+	cond   func() bool // nil = runnable
+	done   bool
+	fn     value
+	args   []value
+	isMain bool
+	start  bool // started?
 }
 
-type pendingGo struct {
-	fn   value
-	args []value
+type sendItem struct {
+	v     value
+	taken bool
+	g     *gor
+}
+
+type chanT struct {
+	buf         []value
+	cap         int
+	closed      bool
+	sendq       []*sendItem
+	recvWaiting int
 }
 
 type blockedError struct{ what string }
 
 func (b blockedError) Error() string { return "blocked: " + b.what }
 
-// runPending runs one queued goroutine; it reports whether one was run.
-func (i *interpreter) runPending() bool {
-	if len(i.pending) == 0 {
+type goroutineKill struct{}
+
+type sched struct {
+	gors       []*gor
+	cur        *gor
+	nextID     int
+	crossPanic interface{}
+	killed     bool
+}
+
+func (i *interpreter) initSched() {
+	main := &gor{id: 0, resume: make(chan struct{}, 1), isMain: true, start: true}
+	i.sch = &sched{gors: []*gor{main}, cur: main, nextID: 1}
+}
+
+// spawn registers a new goroutine (it starts running when first scheduled).
+func (i *interpreter) spawn(fn value, args []value) {
+	s := i.sch
+	g := &gor{id: s.nextID, resume: make(chan struct{}, 1), fn: fn, args: args}
+	s.nextID++
+	s.gors = append(s.gors, g)
+}
+
+func (g *gor) canRun() bool {
+	if g.done {
 		return false
 	}
-	g := i.pending[0]
-	i.pending = i.pending[1:]
-	i.goDepth++
-	defer func() { i.goDepth-- }()
-	func() {
-		defer func() {
-			if r := recover(); r != nil {
-				if tp, ok := r.(targetPanic); ok {
-					// a panic in a goroutine kills the program
-					panic(targetPanic{v: tp.v})
-				}
-				panic(r)
+	return g.cond == nil || g.cond()
+}
+
+// pickNext chooses the next goroutine able to run, FIFO after the current one.
+func (s *sched) pickNext(exclude *gor) *gor {
+	n := len(s.gors)
+	startIdx := 0
+	for k, g := range s.gors {
+		if g == s.cur {
+			startIdx = k + 1
+			break
+		}
+	}
+	for k := 0; k < n; k++ {
+		g := s.gors[(startIdx+k)%n]
+		if g == exclude {
+			continue
+		}
+		if g.canRun() {
+			return g
+		}
+	}
+	return nil
+}
+
+// switchTo hands the baton to g and parks the current goroutine until resumed.
+func (i *interpreter) switchTo(g *gor) {
+	s := i.sch
+	self := s.cur
+	s.cur = g
+	if !g.start {
+		g.start = true
+		go i.gorMain(g)
+	} else {
+		g.resume <- struct{}{}
+	}
+	if self.done {
+		return
+	}
+	<-self.resume
+	s.cur = self
+	if s.killed && !self.isMain {
+		panic(goroutineKill{})
+	}
+	if self.isMain && s.crossPanic != nil {
+		p := s.crossPanic
+		s.crossPanic = nil
+		panic(p)
+	}
+}
+
+func (i *interpreter) gorMain(g *gor) {
+	s := i.sch
+	defer func() {
+		r := recover()
+		g.done = true
+		if _, ok := r.(goroutineKill); ok || s.killed {
+			return
+		}
+		if r != nil {
+			// propagate to main
+			if tp, ok := r.(targetPanic); ok {
+				_ = tp
 			}
-		}()
-		call(i, nil, 0, g.fn, g.args)
+			s.crossPanic = r
+			i.switchTo(s.gors[0])
+			return
+		}
+		// pick someone to continue: a runnable goroutine, else main (which will detect deadlock)
+		next := s.pickNext(g)
+		if next == nil {
+			next = s.gors[0]
+		}
+		i.switchTo(next)
 	}()
+	call(i, nil, 0, g.fn, g.args)
+}
+
+// yieldUntil blocks the current goroutine until cond holds.
+func (i *interpreter) yieldUntil(cond func() bool, what string) {
+	s := i.sch
+	self := s.cur
+	for !cond() {
+		self.cond = cond
+		next := s.pickNext(self)
+		if next == nil {
+			self.cond = nil
+			if self.isMain {
+				panic(blockedError{what})
+			}
+			// a helper goroutine is stuck forever: report through main
+			s.crossPanic = blockedError{what + " (in goroutine)"}
+			i.switchTo(s.gors[0])
+			return
+		}
+		i.switchTo(next)
+	}
+	self.cond = nil
+}
+
+// yield lets other runnable goroutines run once (Gosched).
+func (i *interpreter) yield() {
+	s := i.sch
+	self := s.cur
+	next := s.pickNext(self)
+	if next == nil {
+		return
+	}
+	i.switchTo(next)
+}
+
+// drain runs goroutines until none can make progress (end of harness).
+func (i *interpreter) drain() {
+	s := i.sch
+	for {
+		next := s.pickNext(s.cur)
+		if next == nil {
+			return
+		}
+		i.switchTo(next)
+	}
+}
+
+// killAll unwinds parked goroutines at the end of a path.
+func (i *interpreter) killAll() {
+	s := i.sch
+	if s == nil {
+		return
+	}
+	s.killed = true
+	for _, g := range s.gors {
+		if g.isMain || g.done || !g.start {
+			continue
+		}
+		g.resume <- struct{}{}
+	}
+}
+
+// runPending lets other goroutines run; reports whether any could.
+func (i *interpreter) runPending() bool {
+	s := i.sch
+	if s.pickNext(s.cur) == nil {
+		return false
+	}
+	i.yield()
 	return true
 }
 
+// ---- channel operations ----
+
 func (i *interpreter) chanSend(c *chanT, v value) {
 	if c == nil {
-		panic(blockedError{"send on nil channel"})
+		i.yieldUntil(func() bool { return false }, "send on nil channel")
+		return
 	}
-	for {
+	if c.closed {
+		panic(targetPanic{v: rtErr("send on closed channel")})
+	}
+	v = copyVal(v)
+	if c.cap > 0 {
+		i.yieldUntil(func() bool { return c.closed || len(c.buf) < c.cap }, fmt.Sprintf("send on full channel (cap %d)", c.cap))
 		if c.closed {
 			panic(targetPanic{v: rtErr("send on closed channel")})
 		}
-		if len(c.buf) < c.cap || (c.cap == 0 && len(c.buf) == 0 && i.goDepth > 0) {
-			// An unbuffered send from a helper goroutine is modelled as a
-			// rendezvous slot of size one picked up by the receiver.
-			c.buf = append(c.buf, copyVal(v))
-			return
-		}
-		if c.cap == 0 && len(c.buf) == 0 {
-			// main goroutine, unbuffered: deposit and let a pending goroutine take it
-			c.buf = append(c.buf, copyVal(v))
-			for len(c.buf) > 0 {
-				if !i.runPending() {
-					panic(blockedError{"unbuffered send with no receiver"})
-				}
-			}
-			return
-		}
-		if !i.runPending() {
-			panic(blockedError{fmt.Sprintf("send on full channel (cap %d)", c.cap)})
-		}
+		c.buf = append(c.buf, v)
+		return
 	}
+	it := &sendItem{v: v, g: i.sch.cur}
+	c.sendq = append(c.sendq, it)
+	i.yieldUntil(func() bool { return it.taken || c.closed }, "send on unbuffered channel with no receiver")
+	if !it.taken {
+		panic(targetPanic{v: rtErr("send on closed channel")})
+	}
+}
+
+func (c *chanT) canRecv() bool {
+	return c != nil && (len(c.buf) > 0 || len(c.sendq) > 0 || c.closed)
+}
+
+func (c *chanT) take() (value, bool) {
+	if len(c.buf) > 0 {
+		v := c.buf[0]
+		c.buf = c.buf[1:]
+		return v, true
+	}
+	if len(c.sendq) > 0 {
+		it := c.sendq[0]
+		c.sendq = c.sendq[1:]
+		it.taken = true
+		return it.v, true
+	}
+	return nil, false // closed
 }
 
 func (i *interpreter) chanRecv(c *chanT) (value, bool) {
 	if c == nil {
-		panic(blockedError{"receive on nil channel"})
+		i.yieldUntil(func() bool { return false }, "receive on nil channel")
+		return nil, false
 	}
-	for {
-		if len(c.buf) > 0 {
-			v := c.buf[0]
-			c.buf = c.buf[1:]
-			return v, true
-		}
-		if c.closed {
-			return nil, false
-		}
-		if !i.runPending() {
-			panic(blockedError{"receive on empty channel"})
-		}
+	if !c.canRecv() {
+		c.recvWaiting++
+		i.yieldUntil(c.canRecv, "receive on empty channel")
+		c.recvWaiting--
 	}
+	return c.take()
 }
 
 func (i *interpreter) chanClose(c *chanT) {
@@ -105,8 +287,9 @@ func (i *interpreter) chanClose(c *chanT) {
 	c.closed = true
 }
 
-// canRecv/canSend report readiness without blocking.
-func (c *chanT) canRecv() bool { return c != nil && (len(c.buf) > 0 || c.closed) }
 func (c *chanT) canSend() bool {
-	return c != nil && (c.closed || len(c.buf) < c.cap)
+	if c == nil {
+		return false
+	}
+	return c.closed || len(c.buf) < c.cap || (c.cap == 0 && c.recvWaiting > 0)
 }
